@@ -777,11 +777,33 @@ def m_string_from_char(ex, n, a, f):
 def m_str_cmp(ex, n, a, f):
     x = as_str(ex, a[0])
     y = as_str(ex, a[1])
+    what = n.rsplit('::', 1)[1]
     if not (is_conc_chars(x) and is_conc_chars(y)):
-        raise Unsupported("ordering of symbolic strings")
+        # lexicographic comparison decided character by character by the executor (UTF-8 keeps the order of the code points, so the
+        # byte order of `str` is the order of the scalar values); the lengths are concrete
+        sign = 0
+        for cx, cy in zip(x, y):
+            tx = cx if not isinstance(cx, int) else z3.BitVecVal(cx, 32)
+            ty_ = cy if not isinstance(cy, int) else z3.BitVecVal(cy, 32)
+            if isinstance(cx, int) and isinstance(cy, int):
+                if cx == cy:
+                    continue
+                sign = -1 if cx < cy else 1
+                break
+            if ex.branch(to_bv(tx, 32) == to_bv(ty_, 32), 'str-cmp-eq'):
+                continue
+            sign = -1 if ex.branch(z3.ULT(to_bv(tx, 32), to_bv(ty_, 32)), 'str-cmp-lt') else 1
+            break
+        if sign == 0:
+            sign = -1 if len(x) < len(y) else 1 if len(x) > len(y) else 0
+        if what in ('lt', 'le', 'gt', 'ge'):
+            return {'lt': sign < 0, 'le': sign <= 0, 'gt': sign > 0, 'ge': sign >= 0}[what]
+        rt = ret_ty(f)
+        oty = rt if what != 'partial_cmp' else ex.p.ty(rt)['adt']['targs'][0]
+        o = Adt(oty, ex.p.variant_index(oty, 'Less' if sign < 0 else 'Equal' if sign == 0 else 'Greater'), [])
+        return some(ex, rt, o) if what == 'partial_cmp' else o
     bx = ''.join(map(chr, x)).encode()
     by = ''.join(map(chr, y)).encode()
-    what = n.rsplit('::', 1)[1]
     if what in ('lt', 'le', 'gt', 'ge'):
         return {'lt': bx < by, 'le': bx <= by, 'gt': bx > by, 'ge': bx >= by}[what]
     rt = ret_ty(f)
